@@ -141,6 +141,23 @@ def specIntegral (step : Option Rat) (scaled : Bool) : List (Entry Rat) → Int 
   | a :: b :: rest, p0, p1 => pairIntegral step scaled a b p0 p1 + specIntegral step scaled (b :: rest) p0 p1
   | _, _, _ => 0
 
+/-- the published values that contribute to the integral over `[p0, p1]` on the pair `(a, b)`: both
+    ends for the linear interpolant when the overlap has positive length; for the step interpolant
+    `a.v` if the overlap with the part before the step position has positive length, `b.v` likewise
+    for the part behind it -/
+def pairContrib (step : Option Rat) (a b : Entry Rat) (p0 p1 : Int) : List Rat :=
+  match step with
+  | none => if clampR a.t b.t p0 < clampR a.t b.t p1 then [a.v, b.v] else []
+  | some s =>
+    (if min (clampR a.t b.t p0) ((a.t : Rat) + s * ((b.t : Rat) - a.t)) <
+        min (clampR a.t b.t p1) ((a.t : Rat) + s * ((b.t : Rat) - a.t)) then [a.v] else []) ++
+    (if max (clampR a.t b.t p0) ((a.t : Rat) + s * ((b.t : Rat) - a.t)) <
+        max (clampR a.t b.t p1) ((a.t : Rat) + s * ((b.t : Rat) - a.t)) then [b.v] else [])
+
+def contrib (step : Option Rat) : List (Entry Rat) → Int → Int → List Rat
+  | a :: b :: rest, p0, p1 => pairContrib step a b p0 p1 ++ contrib step (b :: rest) p0 p1
+  | _, _, _ => []
+
 /-- the property's answer for a request at `p1` following a request (or the first publication) at
     `p0 < p1` -/
 def specValue (c : Cfg) (h : List (Entry Rat)) (p0 p1 : Int) : Rat :=
